@@ -171,8 +171,9 @@ def run : Nat → ITask → St → IRes
       let out ← renderVal v
       pure (out, st)
   | n + 1, .ev (.xexpr (.call f args)), st => do
+      let fv ← eval st.look f
       let vs ← evalArgs st.look args
-      let m ← getMacro st (st.look f)
+      let m ← getMacro st fv
       let scope ← bindParams m.params vs
       mapSt St.pop (run n (.apply m.dirs m.body) (st.push scope))
   | n + 1, .ev (.sub ds body), st => run n (.apply ds body) st
